@@ -517,10 +517,19 @@ func c04Foreign(c *core.Ctx, id string, i int, kind string, k1, k2 gen.KeyPair, 
 	case 2:
 		sigEnc, payEnc, encName = base64.URLEncoding, base64.URLEncoding, "URL-safe base64 signature and payload"
 	}
-	env := map[string]any{"payloadType": pt, "payload": payEnc.EncodeToString(pb), "signatures": []any{map[string]any{"keyid": k1.Pub.KeyID, "sig": sigEnc.EncodeToString(sig)}}}
+	// the key id of a DSSE signature is an optional hint: every third foreign signer leaves it empty
+	kid := k1.Pub.KeyID
+	if (i/10+i%10)%3 == 1 {
+		kid = ""
+		encName += ", signature without a key id"
+	}
+	env := map[string]any{"payloadType": pt, "payload": payEnc.EncodeToString(pb), "signatures": []any{map[string]any{"keyid": kid, "sig": sigEnc.EncodeToString(sig)}}}
 	eb, _ := json.Marshal(env)
 	os.WriteFile(file, eb, 0644)
 	detail := map[string]any{"payload": string(pb), "first_signer": k1.Name, "second_signer": k2.Name, "encoding": encName}
+	if kid == "" {
+		c.Obs("foreign_envelopes_without_key_id", 1)
+	}
 	if strings.ContainsAny(sigEnc.EncodeToString(sig)+payEnc.EncodeToString(pb), "-_") {
 		c.Obs("foreign_envelopes_with_url_safe_characters", 1)
 	}
@@ -578,7 +587,7 @@ func c04Foreign(c *core.Ctx, id string, i int, kind string, k1, k2 gen.KeyPair, 
 	for _, s := range e2.Signatures {
 		sb := b64(s.Sig)
 		for _, k := range []gen.KeyPair{k1, k2} {
-			if s.KeyID == k.Pub.KeyID && ref.VerifyStd(k.Public, ref.PAE(e2.PayloadType, p2), sb) == nil {
+			if (s.KeyID == k.Pub.KeyID || s.KeyID == "") && ref.VerifyStd(k.Public, ref.PAE(e2.PayloadType, p2), sb) == nil {
 				verified++
 			}
 		}
